@@ -32,15 +32,26 @@ def check_case(ctx, cs, prop_site="insert_knot"):
     changed = exp != sh0
     ctx.count(hist_key(cs), nontrivial=True, sample={"sh0": {k: sh0[k] for k in ("deg", "kv", "size", "rat")}, "hist": hist,
                                                         "expected_kv": exp["kv"], "expected_size": exp["size"]})
-    for via in ("operations", "method", "tiny", "huge", "alt", "alt_method"):
+    # (parameters 2^-20 next to a knot would come within the library's absolute knot tolerance of 1e-7 on the scaled range)
+    near = any(q != [] and q[1] >= 2 ** 20 for st in hist if "prm" in st for q in st["prm"])
+    unit_range = all(U[0] == [0, 1] and U[-1] == [1, 1] for U in sh0["kv"]) and not near
+    for via in ("operations", "method", "tiny", "huge", "alt", "alt_method") + (("tiny_knot_range",) if unit_range else ()):
         site = ("%s." % KIND[len(sh0["deg"])].capitalize() if via in ("method", "alt_method") else "operations.") + prop_site
         conj = {"tiny": 2.0 ** -40, "huge": 2.0 ** 30}.get(via)
         if conj is not None:
             tg = [t for t in tg if not t.startswith("coordinates=")] + ["coordinates=" + via]
         if via.startswith("alt"):
             tg = [t for t in tg if not t.startswith("coordinates=")] + ["tuples_and_ints"]
+        if via == "tiny_knot_range":
+            tg = [t for t in tg if not t.startswith("coordinates=") and t != "tuples_and_ints"] + ["knot_range=2^-16"]
         try:
-            obj, infos = replay_history(sh0, hist, "method" if via in ("method", "alt_method") else "operations", conj=conj, alt_repr=via.startswith("alt"))
+            obj, infos = replay_history(sh0, hist, "method" if via in ("method", "alt_method") else "operations", conj=conj, alt_repr=via.startswith("alt"),
+                                        kv_scale=(2 ** 16 if via == "tiny_knot_range" else None))
+            if via == "tiny_knot_range":
+                # (back onto [0, 1] for the comparison with the specification's result)
+                for U_ in obj._knot_vector:
+                    for i_ in range(len(U_)):
+                        U_[i_] = U_[i_] * 2.0 ** 16
         except Exception as e:
             ctx.violate(site, tg + ["raises"], small, {"exception": repr(e)[:300]})
             continue
